@@ -8,7 +8,7 @@ TRUSTED_BASE = [
     'vstd specifications of Vec, slices, Option, Result, String/str, Box, HashMap',
     'extraction: tools/extract.py copies function bodies verbatim; rewrite rules of tools/rules.py (each application is logged under rewrite_rules_applied)',
     'R-derive: derived Clone / PartialEq are structural (external_body stand-ins in spec/syntax.rs)',
-    'R-fmt-val: format!(lit, args) is the concatenation of the Display renderings of args (ensures generated from the literal in the repo source); Display tables of UnaryOp/BinaryOp/HybridOp/Atomic as in spec/syntax.rs',
+    'R-fmt-val: format!(lit, args) is the concatenation of the Display renderings of args (ensures generated from the literal in the repo source); the Display implementations of UnaryOp/BinaryOp/HybridOp/Atomic/HctlTreeNode are proved to write the tables of spec/syntax.rs (unit tree, display_*; R-display: Formatter modelled as a text sink, write! = append; Debug of a field-less enum = variant identifier, table generated from the enum)',
     'R-fmt-msg: error-message text is irrelevant (format! in Err(..) replaced by an opaque String)',
 ]
 ASSUMPTIONS = [
@@ -174,12 +174,12 @@ PROPS['C06'] = {
                    'tk(t) back as t (lemma_parse_tk); every tree the tokenizer + parser can return is printable (lemma_lex_pr, lemma_parse_pr) and so is every preprocessed tree '
                    '(lemma_rename_pr). Conclusions over the proved postconditions parse_ok / preprocess_ok / wf: lemma_c06_constructed, lemma_c06_parsed, lemma_c06_preprocessed: '
                    'parsing the stored (= printed) text returns Ok(m) with the same structure, the same stored text and the same stored height.'),
-    'level_note': ('Trusted: Verus/Z3, format! = concatenation of Display renderings (R-fmt-val), Display tables, `impl Display for HctlTreeNode` prints formula_str, derive(Clone), '
+    'level_note': ('The five Display implementations (operators, atoms, tree node) are proved to write the rendering tables used by `render` (contracts display_*). Trusted: Verus/Z3, format! = concatenation of Display renderings (R-fmt-val), derive(Clone), '
                    'derive(PartialEq) = structural equality (the theorems conclude equal view, text and height). Heights below 2^32, texts shorter than 2^32 characters. '
                    'A proposition name whose first character is Unicode white space AND alphanumeric is excluded (no such character exists; the Unicode tables are not axiomatised beyond ASCII).'),
     'explanation': ('wf(node) is a postcondition of every constructor and (through `agrees`) of every parse_k; render/s_height are written from the statement in spec/syntax.rs; '
                     'spec/roundtrip.rs (parser half), spec/roundtrip_lex.rs (tokenizer half), spec/roundtrip_closed.rs (closure + theorems over the contracts) in unit rt.'),
-    'trusted': PROPS['C05']['trusted'] + ['R-fmt-val / Display tables (spec/syntax.rs)'],
+    'trusted': PROPS['C05']['trusted'] + ['R-fmt-val: `{x}` in format! and x.to_string() denote the text Display::fmt writes (std); R-display: Formatter = text sink, write!(f, ..) appends and returns Ok; derive(Debug) of a field-less enum prints the variant identifier'],
 }
 
 PROPS['C07'] = {
